@@ -558,7 +558,7 @@ def main(argv):
     t_cpu0 = os.times()
     cov = {"tlc_runs": []}
     states = trans = 0
-    par = 5 if quick else 8          # TLC processes alive at once (small heaps: the machine is shared)
+    par = 5 if quick else 4          # TLC processes alive at once (small heaps: the machine is shared)
 
     def note(name, r):
         nonlocal states, trans
@@ -634,7 +634,7 @@ def main(argv):
 
     # ---- 2. behaviours emitted by TLC (as-built layer of this tree switched on, both answers per step)
     sd = seed()
-    nsim = 10 if quick else 300
+    nsim = 10 if quick else 100
     dsim = 8 if quick else 10
     allf = '{"b","s","io","kb"}'
     E = [  # (label, cfg kwargs, invariant, simulate?)
@@ -650,7 +650,7 @@ def main(argv):
     ]
     if not quick:
         E += [
-            ("zip state cover depth 4", dict(kind="zip", names="Names4", toks="{1,2,3}", wforms=allf, refs="RefsDot", depth=4, dev=zdev), "EmitAll", None),
+            ("zip state cover depth 4", dict(kind="zip", names="Names3", toks="{1,3}", wforms='{"b","io"}', refs="Refs1", depth=4, dev=zdev), "EmitAll", None),
             ("zip all names all histories depth 3", dict(kind="zip", names="NamesAll", toks="{3,4}", wforms='{"b","io"}', depth=3, dev=zdev, view=False), "EmitLeaf", None),
             ("file all names all histories depth 3", dict(kind="file", names="NamesAll", toks="{3,4}", depth=3, dirs0="DirsTT", dev=fdev, view=False), "EmitLeaf", None),
             ("file state cover depth 5", dict(kind="file", names="Names4", toks="{1,2,3}", wforms='{"b","s"}', refs="RefsDot", depth=5, dev=fdev), "EmitAll", None),
@@ -672,49 +672,50 @@ def main(argv):
         r.stdout, r.printed = "", []
         return label, r, got
 
-    behs, per = [], {}
+    # ---- 3. replay, one emission at a time (the behaviours of a run are dropped once replayed)
+    per, ops, explained, kept, samples = {}, {}, {}, {}, []
+    ncmp = drift = nstep = nbeh = 0
+    replay_cpu = replay_wall = 0.0
     with ThreadPoolExecutor(max_workers=par) as ex:
         for label, r, got in ex.map(emit, E):
             note("emit " + label, r)
             per[label] = len(got)
-            behs += got
-    for label, n in per.items():
-        need = nsim if "simulated" in label else 100
-        if n < need:
-            raise MachineryError("emission '%s' too small: %d behaviours" % (label, n))
+            if len(got) < (nsim if "simulated" in label else 100):
+                raise MachineryError("emission '%s' too small: %d behaviours" % (label, len(got)))
+            samples.append([e["step"] for e in got[len(got) // 2]["h"]])
+            for bh in got:
+                for e in bh["h"]:
+                    ops[e["step"]["op"]] = ops.get(e["step"]["op"], 0) + 1
+            t0, tr0 = time.time(), os.times()
+            results = pmap(_replay_chunk, list(enumerate(got, start=nbeh)))
+            tr1 = os.times()
+            replay_wall += time.time() - t0
+            replay_cpu += tr1.children_user + tr1.children_system - tr0.children_user - tr0.children_system
+            if sum(x[4] for x in results) != len(got):
+                raise MachineryError("replay lost behaviours of '%s'" % label)
+            ncmp += sum(x[1] for x in results)
+            drift += sum(x[2] for x in results)
+            nstep += sum(x[3] for x in results)
+            nbeh += len(got)
+            for out, *_ in results:
+                for rec in out:
+                    for f in rec["fails"]:
+                        dv = f.get("deviation")
+                        key = (f["clause"], dv)
+                        kept[key] = kept.get(key, 0) + 1
+                        if dv:
+                            explained[dv] = explained.get(dv, 0) + 1
+                        if kept[key] > (40 if dv else 400):
+                            continue               # counted; the record would only repeat what is already kept
+                        detail = {"kind": rec["kind"], "none_archive": rec["none"], "dirs0": rec["dirs0"],
+                                  "behaviour": rec["behaviour"], "fail": f}
+                        V.violation(f["clause"], detail, dv)
+            del got, results
     cov["behaviours"] = per
-
-    # ---- 3. replay
-    t0 = time.time()
-    tr0 = os.times()
-    results = pmap(_replay_chunk, list(enumerate(behs)))
-    tr1 = os.times()
-    cov["replay_cpu_s"] = round(tr1.children_user + tr1.children_system - tr0.children_user - tr0.children_system, 1)
-    ncmp = sum(r[1] for r in results)
-    drift = sum(r[2] for r in results)
-    nstep = sum(r[3] for r in results)
-    nbeh = sum(r[4] for r in results)
-    explained, kept = {}, {}
-    for out, *_ in results:
-        for rec in out:
-            for f in rec["fails"]:
-                dv = f.get("deviation")
-                key = (f["clause"], dv)
-                kept[key] = kept.get(key, 0) + 1
-                if dv:
-                    explained[dv] = explained.get(dv, 0) + 1
-                if kept[key] > (40 if dv else 400):
-                    continue               # counted; the record would only repeat what is already kept
-                detail = {"kind": rec["kind"], "none_archive": rec["none"], "dirs0": rec["dirs0"],
-                          "behaviour": rec["behaviour"], "fail": f}
-                V.violation(f["clause"], detail, dv)
+    cov["replay_cpu_s"] = round(replay_cpu, 1)
     cov["contradicting_observations"] = {"%s / %s" % (c, d or "UNEXPLAINED"): n for (c, d), n in sorted(kept.items(), key=str)}
-    if nbeh != len(behs) or ncmp < 5 * nbeh:
+    if ncmp < 5 * nbeh:
         raise MachineryError("replay compared too little: %d behaviours, %d comparisons" % (nbeh, ncmp))
-    ops = {}
-    for b in behs:
-        for e in b["h"]:
-            ops[e["step"]["op"]] = ops.get(e["step"]["op"], 0) + 1
     if min(ops.get(o, 0) for o in ("write", "get", "keys", "namespaced", "export", "load", "mkdir")) < 20:
         raise MachineryError("an operation is (nearly) absent from the emitted behaviours: %s" % ops)
     t_cpu1 = os.times()
@@ -726,12 +727,11 @@ def main(argv):
         "operations_replayed": ops,
         "observations_explained_by_a_fired_deviation": explained,
         "model_drift": drift,
-        "replay_wall_s": round(time.time() - t0, 1),
+        "replay_wall_s": round(replay_wall, 1),
         "cpu_s": round((t_cpu1.user + t_cpu1.system + t_cpu1.children_user + t_cpu1.children_system)
                        - (t_cpu0.user + t_cpu0.system + t_cpu0.children_user + t_cpu0.children_system), 1),
         "exhaustive": True,
-        "samples": [[e["step"] for e in behs[0]["h"]], [e["step"] for e in behs[len(behs) // 2]["h"]],
-                    [e["step"] for e in behs[-1]["h"]]],
+        "samples": samples[:6],
     })
     return V.finish("model_checking", cov, assumptions=[
         "names from {a.bin, A.bin, ./a.bin, t/b.bin, b.bin}, one namespace 't' nested at most twice, at most 4 resolver objects, payloads: two MTL texts and three PNG images",
